@@ -149,6 +149,8 @@ def boolean_families(tier: str, alias_heavy: bool = False) -> Dict[str, List[Any
     xlt = ('bin', '<', X, L(1))
     alt = ('bin', '<', X, AX)
     b0 = [P, Q, AP, L(True), L(False), xlt] + ([alt, ('bin', '=', BX, AX)] if alias_heavy or thorough else [alt])
+    if alias_heavy:
+        b0.append(('bin', '<', ('idx', XS, ('fa', ('var', 'A'), 'i')), L(1)))  # the alias occurs ONLY inside an index expression
     b1 = b0 + bins(LOGIC, b0, b0) + [('not', a) for a in b0]
     fam['prop-depth2'] = bins(LOGIC, b1, b0) + bins(LOGIC, b0, [b for b in b1 if b not in b0]) + [('not', a) for a in b1]
     c0 = [P, AP, alt]
@@ -158,6 +160,8 @@ def boolean_families(tier: str, alias_heavy: bool = False) -> Dict[str, List[Any
         + [('bin', 'and', ('not', a), Q) for a in (c2 if thorough else c2[::4])]
     # quantifiers: bodies mixing variable-dependent and variable-free parts
     qa = [('bin', '<', V, L(1)), ('bin', '=', V, X), ('bin', '>', V, AX)]
+    if alias_heavy:
+        qa.append(('bin', '>', ('idx', YS, V), L(0)))  # the quantified variable occurs ONLY inside an index expression
     qf = [P, AP, alt]  # no variable
     qb0 = qa + qf
     qb1 = bins(LOGIC, qb0, qb0) + [('not', a) for a in qb0]
@@ -259,3 +263,21 @@ def call_shapes() -> List[Any]:
         out.append(('bin', '<', ('call', f, X, Y, L(0), L(1)), Y))
         out.append(('bin', '<', ('call', f, L(0), L(0), L(0), L(1)), Y))
     return uniq(out)
+
+
+def reuse_family() -> List[Tuple[Any, bool]]:
+    """(predicate spec, must_be_rejected): one reference used three times — at a generic, a numeric, a boolean or a string position —
+    in every order; rejected iff two of the uses require disjoint types"""
+    out = []
+    refs = [X, AX, ('idx', XS, L(0)), ('fa', ('f', 'm'), 'k')]
+    for r in refs:
+        uses = {'gen': ('bin', '=', r, ('fa', ('var', 'B'), 'w')), 'num': ('bin', '<', r, L(1)), 'bool': ('not', r), 'str': ('bin', '=', r, ('str', 'a')),
+                'gen2': ('bin', 'in', r, ('fa', ('var', 'B'), 'ws'))}
+        import itertools as it
+        for combo in it.permutations(uses, 3):
+            kinds = {k for k in combo if k in ('num', 'bool', 'str')}
+            clash = len(kinds) >= 2
+            a, b, c = (uses[k] for k in combo)
+            out.append((('bin', 'and', ('bin', 'and', a, b), c), clash))
+            out.append((('bin', 'or', a, ('bin', 'implies', b, c)), clash))
+    return out
